@@ -5,7 +5,7 @@ V = os.path.dirname(os.path.dirname(os.path.abspath(__file__)))
 
 CHECKS = {
  "C01": dict(engine="vw+vp+asan",
-   text="totality oracle (exactly one of Ok / structured Err is returned within logical-step budgets; no panic, no process death, parse-progress invariant holds, the Err can be inspected and rendered) over ~1M hostile executions per quick run: golden corpus x 3 syntaxes, near-miss mutations, token soup, ill-typed calls of every builtin, deep shapes, invalid/unreadable bytes for entry and imported files, release-like and debug-like profiles; thorough adds the same workload under AddressSanitizer",
+   text="totality oracle (exactly one of Ok / structured Err is returned within logical-step budgets; no panic, no process death, parse-progress invariant holds, the Err can be inspected and rendered) over ~1M hostile executions per quick run: golden corpus x 3 syntaxes, near-miss mutations, token soup, ill-typed calls of every builtin, deep shapes, hex escapes of every boundary code point in every lexical context, indentation soup for the indented syntax, invalid/unreadable bytes for entry and imported files, release-like and debug-like profiles; thorough adds the same workload under AddressSanitizer",
    note="held on the executions listed in the evidence file only; hang verdicts rely on the `verif` step counters (reads without cursor progress <= 1000+64*len(buffer); total reads <= 2e8 on inputs <= 8 KiB); exceeding the evaluation budgets is treated as the stylesheet's own unbounded loop/recursion (excluded by the property)",
    technique="runtime monitoring: catch_unwind/process-death observer + hooked bounded-progress invariant over fuzzed executions; ASan build in thorough tier"),
  "C02": dict(engine="vw+vp+tsan+miri",
@@ -13,7 +13,7 @@ CHECKS = {
    note="histories <= 60 compilations, schedules sampled not enumerated; three order-exposure defects with one root cause (maps ordered by interner key / hash order) are recorded as known findings and matched narrowly (permutation of tokens in programs that use the triggering construct)",
    technique="runtime monitoring: differential history/process/schedule replay against a fresh-thread reference; TSan and Miri (seeded schedules) in thorough tier"),
  "C06": dict(engine="vw+vp",
-   text="metamorphic monitor: every input (golden corpus, compiling near-miss mutations, generated programs biased to the value-to-text conversion sites) is compiled in both styles; canonical (context, selector, declarations) lists from an independent CSS reader must be equal once exactly the licensed differences are removed (whitespace, optional semicolons, non-/*! comments, number and colour spellings); success/failure, @error text, Logger message sequences and probe-observed values must be equal; string tokens are never canonicalised",
+   text="metamorphic monitor: every input (golden corpus, compiling near-miss mutations, generated programs biased to the value-to-text conversion sites, every function of every built-in module (names read through meta.module-functions) over a value pool incl. calculations, statement-shape programs) is compiled in both styles; canonical (context, selector, declarations) lists from an independent CSS reader must be equal once exactly the licensed differences are removed (whitespace, optional semicolons, non-/*! comments, number and colour spellings); success/failure, @error text, Logger message sequences and probe-observed values must be equal; string tokens are never canonicalised",
    note="the canonicaliser is the trusted base (CSS Syntax 3 tokenizer + colour table + hsl->rgb); outputs that are not parseable CSS in either style are inconclusive; wording of compiler-generated error messages is not compared",
    technique="runtime monitoring: metamorphic differential oracle (expanded vs compressed) over recorded outputs, Logger traces and probe values"),
  "C05": dict(engine="vw+vp+miri",
@@ -21,7 +21,7 @@ CHECKS = {
    note="fixed point compared on canonical (context, selector, declarations) lists, ignoring declaration-less rules; outputs containing `#{` inside strings are not re-fed; nested @media re-merging is left to C17; domain exclusions are listed in vp/c05_domain_exclusions.json with the failing check",
    technique="runtime monitoring: invariant checks on recorded outputs (independent CSS reader) + metamorphic fixed-point re-compilation; Miri for the unsafe from_utf8_unchecked path"),
  "C08": dict(engine="vw+vp",
-   text="reference-model monitor: an independent table-free unit model (dimension classes with exact ratios) predicts value, unit and error status of `1u op xv` for ALL 36x36 ordered pairs of the 34 known units + an unknown unit + unitless x 10 operations x 3 magnitudes (exhaustively enumerated sub-space), plus sampled round trips, transitivity, cancellation and compound-unit cases; observations are exact f64 bits and unit lists from the probe; emission of compound units must fail in both styles",
+   text="reference-model monitor: an independent table-free unit model (dimension classes with exact ratios) predicts value, unit and error status of `1u op xv` for ALL 36x36 ordered pairs of the 34 known units + an unknown unit + unitless x 10 operations x 3 magnitudes (exhaustively enumerated sub-space), plus sampled round trips, transitivity, cancellation, products/quotients of up to 3x3 unit factors judged as physical quantities, n-ary math.min/max over mixed units; observations are exact f64 bits and unit lists from the probe; emission of compound units must fail in both styles",
    note="numeric agreement within relative 1e-11; for cancellations the result is compared as a quantity (any convertible unit accepted); convertibility of *compound* units is not demanded",
    technique="runtime monitoring: reference-model oracle over probe-observed values, exhaustive over the unit-pair table"),
  "C17": dict(engine="vw+vp",
@@ -33,7 +33,7 @@ CHECKS = {
    note="no table of which values are equal is imposed (laws and cross-operation agreement only); NaN excluded; key sequences compared modulo ==",
    technique="runtime monitoring: law/invariant oracle over probe-observed truth matrices + association-list reference model for operation histories"),
  "C15": dict(engine="vw+vp",
-   text="invariant monitor at the probe (every colour value produced by any workload: integer r/g/b in [0,255], alpha in [0,1]); all 148 named colours against the CSS Color 4 table embedded in the monitor and across spellings (name, hex, rgb(), rgba(), hsl(), hwb(), upper case: ==, equal channels, identical compressed text); all 4096 short-hex colours; hsl/hwb round trips, invert/complement involutions and identity-at-0 laws evaluated inside the compiler over a lattice of the 8-bit cube with +-1 neighbours (thorough: the whole 2^24 cube sharded by red channel); opacify/transparentize, scale/adjust/change-color and out-of-range arguments against their definitions",
+   text="invariant monitor at the probe (every colour value produced by any workload: integer r/g/b in [0,255], alpha in [0,1]); all 148 named colours against the CSS Color 4 table embedded in the monitor and across spellings (name, hex, rgb(), rgba(), hsl(), hwb(), upper case: ==, equal channels, identical compressed text); all 4096 short-hex colours; printed text of colours on and next to the 17-grid read back by the independent CSS reader must denote the value's channels (both styles); hsl/hwb round trips, invert/complement involutions and identity-at-0 laws evaluated inside the compiler over a lattice of the 8-bit cube with +-1 neighbours (thorough: the whole 2^24 cube sharded by red channel); opacify/transparentize, scale/adjust/change-color and out-of-range arguments against their definitions",
    note="laws are evaluated by the compiler itself and only mismatches are reported through the probe; out-of-range arguments may be clamped or rejected, never kept",
    technique="runtime monitoring: invariant-at-hook over probe-observed colour values + law/round-trip oracle, exhaustive over names and short hex (thorough: the 8-bit cube)"),
  "C07": dict(engine="vw+vp",
@@ -41,7 +41,7 @@ CHECKS = {
    note="tolerance oracle is three-valued near the 1e-11 boundary; both double-precision realisations of Sass modulo are accepted; half-up and half-even accepted on exact decimal ties",
    technique="runtime monitoring: reference-model oracles (IEEE/decimal/libm) over probe-observed f64 bit patterns and printed text"),
  "C16": dict(engine="vw+vp",
-   text="reference-evaluator monitor: random calculation trees (depth <= 4, + - * /, px/in/cm/em/rem/%/vw/deg/turn/s/ms/unitless, negatives, nested calc/min/max/clamp, variables or interpolation as operands, both styles) are compiled; an independent evaluator computes the quantity of the source AST and of the emitted text (own tokenizer/parser: precedence, parentheses, signs) under 8 random unit environments and the two must agree; outputs must be a plain number iff all operands are mutually convertible; provably incompatible operands must be rejected; panics refute",
+   text="reference-evaluator monitor: random calculation trees (depth <= 4, + - * /, px/in/cm/em/rem/%/vw/deg/turn/s/ms/unitless, negatives, nested calc/min/max/clamp, variables or interpolation as operands, both styles, printed fully parenthesised or with minimal parentheses) are compiled; an independent evaluator computes the quantity of the source AST and of the emitted text (own tokenizer/parser: precedence, parentheses, signs) under 8 random unit environments and the two must agree; outputs must be a plain number iff all operands are mutually convertible; provably incompatible operands must be rejected; panics refute",
    note="tolerance 2e-6 relative (emitted numbers carry 10 digits); `%` is treated as possibly compatible with anything; one known finding (clamp with MIN > MAX, mirrors dart-sass) is matched only when the expression contains such a clamp",
    technique="runtime monitoring: reference-model (independent calc evaluator) oracle over compiled outputs under randomised unit environments"),
  "C14": dict(engine="vw+vp",
@@ -53,15 +53,15 @@ CHECKS = {
    note="programs outside the model are inconclusive; identical repeated warnings from one location are collapsed on both sides; serializer-time errors are deferred in the model as in the reference implementation",
    technique="runtime monitoring: reference-model (independent interpreter) oracle over recorded outputs and Logger traces of generated programs"),
  "C18": dict(engine="vw+vp",
-   text="metamorphic monitor: byte-equal outputs (or common failure) are required between the SCSS and the indented print of every generated program (two independent printers), between each source and its rewrites (LF->CRLF/CR/FF, blank lines and trailing spaces, `//` comment lines, extra spaces around separable tokens, leading BOM/@charset, consistent and mixed `_`/`-` swaps in variable/function/mixin names), for golden-corpus inputs under newline/BOM/@charset rewrites, and between plain-CSS corpus outputs parsed as CSS and as SCSS; a list of Sass-only constructs must be rejected in CSS mode",
+   text="metamorphic monitor: byte-equal outputs (or common failure) are required between the SCSS and the indented print of every generated program (two independent printers), between each source and its rewrites (LF->CRLF/CR/FF, blank lines and trailing spaces, `//` comment lines, extra spaces around separable tokens, spaces between tokens replaced by newlines/indentation/tabs/end-of-line comments, leading BOM/@charset, consistent and mixed `_`/`-` swaps in variable/function/mixin names), for golden-corpus inputs under newline/BOM/@charset rewrites, and between plain-CSS corpus outputs parsed as CSS and as SCSS; a list of Sass-only constructs must be rejected in CSS mode",
    note="rewrites never touch string contents (the generator emits no raw newlines inside strings; corpus inputs with escaped newlines are skipped); one known finding (BOM shifts the re-indentation column of a first-line loud comment) is matched only for sources starting with an indented `/*`",
    technique="runtime monitoring: metamorphic differential oracle over outputs of syntax/spelling variants of the same program"),
  "C20": dict(engine="cli+vw+vp+valgrind",
-   text="differential monitor between the real `grass` binary built from the tree and the library it wraps (worker with StdFs/StdLogger in the same working directory): exit status, stdout/output-file bytes, stderr (rendered error in the selected Unicode/ASCII mode, warnings) for corpus, mutated and diagnostic/import-heavy inputs x all 2^5 flag combinations x {file, --stdin} x {stdout, output file}, plus injected I/O faults (missing file, directory as input, non-UTF-8 file or stdin, unwritable output) that must exit non-zero with empty stdout; thorough uses the repository's release profile (LTO, panic=abort) and adds valgrind memcheck on a sample",
+   text="differential monitor between the real `grass` binary built from the tree and the library it wraps (worker with StdFs/StdLogger in the same working directory): exit status, stdout/output-file bytes, stderr (rendered error in the selected Unicode/ASCII mode, warnings) for corpus, mutated and diagnostic/import-heavy inputs x all 2^5 flag combinations x {file, --stdin} x {stdout, output file (fresh, or existing with longer stale content)}, plus injected I/O faults (missing file, directory as input, non-UTF-8 file or stdin, unwritable output) that must exit non-zero with empty stdout; thorough uses the repository's release profile (LTO, panic=abort) and adds valgrind memcheck on a sample",
    note="the library oracle is the same code the binary links; process spawning bounds the volume (~6k invocations per quick run)",
    technique="runtime monitoring: process-boundary differential oracle (exit code, fd 1/2, output file) + valgrind memcheck in thorough tier"),
  "C19": dict(engine="vw+vp",
-   text="(a) bounds monitor on every error location reported for hundreds of thousands of failing inputs (corpus error! items, mutations, soup, ill-typed builtin calls, multi-byte text around re-lexed selectors/media queries, broken files reached through @import/@use/@forward; three syntaxes; Unicode and ASCII rendering): named file is the entry or a file that was read, begin <= end, lines/columns inside the text the harness supplied, Display starts with `Error: <message>` and never panics, ASCII mode stays ASCII; (b) offline checker of the Logger event log of generated programs against the reference interpreter's trace including file name and 1-based line of every executed @debug/@warn (lines known from the printers), in the entry file and in imported/used files, SCSS and indented; (c) quiet => empty trace; (d) with a custom Logger no byte may appear on fd 1/2 (captured around every compilation)",
+   text="(a) bounds monitor on every error location reported for hundreds of thousands of failing inputs (corpus error! items, mutations, soup, ill-typed builtin calls, multi-byte text around re-lexed selectors/media queries, broken files reached through @import/@use/@forward; three syntaxes; Unicode and ASCII rendering): named file is the entry or a file that was read, begin <= end, lines/columns inside the text the harness supplied, Display starts with `Error: <message>` and never panics, ASCII mode stays ASCII; (b) offline checker of the Logger event log of generated programs against the reference interpreter's trace including file name and 1-based line of every executed @debug/@warn (lines known from the printers), in the entry file and in imported/used files, SCSS and indented; (c) quiet => empty trace, also for the constructs with a compiler/reference message of their own (30-program family x both styles); (d) with a custom Logger no byte may appear on fd 1/2 (captured around every compilation)",
    note="identical (location, message) warnings are collapsed on both sides; IoError/FromUtf8Error have no location in the public API and are only checked for renderability",
    technique="runtime monitoring: invariant checks over recorded error objects + offline trace checker of Logger event logs against a reference model; fd 1/2 capture"),
  "C04": dict(engine="vw+vp",
@@ -73,8 +73,8 @@ CHECKS = {
    note="opaque features for attribute selectors and argument-less pseudo-classes; exactly one type, at most one id and pseudo-element per element; soundness (not completeness) of is-superselector/unify is demanded",
    technique="runtime monitoring: exhaustive small-model (DOM enumeration) oracle over probe-observed results + metamorphic comparison with the style-rule/@extend code paths"),
  "C10": dict(engine="vw+vp",
-   text="DOM-truth monitor for @extend: the credited semantics (an element counts as matching target T iff it matches T natively or, recursively, an extender of T; least fixed point) is computed by the monitor on the SOURCE selectors and every rewritten selector read from the output is judged on all ordered forests with <= 3 elements (thorough: 4) over the case's features: soundness, completeness for single-compound extenders, first law, second law (negation/pseudo-free cases), no placeholder in the output, order independence (source order vs reversed, compared by match sets), plus the @media / !optional / missing-target families",
-   note="inside :not() only plain single-compound extenders are judged for soundness (Sass deliberately under-extends there); sheets combining negation with chained extends, and outputs too large for the DOM oracle, are inconclusive; five known findings (missing target accepted, extension across @media, self-extension blow-up, two order-dependence classes that mirror the reference algorithm) are matched narrowly",
+   text="DOM-truth monitor for @extend: the credited semantics (an element counts as matching target T iff it matches T natively or, recursively, an extender of T; least fixed point) is computed by the monitor on the SOURCE selectors and every rewritten selector read from the output is judged on all ordered forests with <= 3 elements (thorough: 4) over the case's features: soundness, completeness for single-compound extenders, first law, second law (negation/pseudo-free cases), no placeholder in the output, order independence (source order vs reversed, compared by match sets); generators include transitive chains and lists holding one target behind two different combinators; plus the @media / !optional / missing-target families",
+   note="inside :not() only plain single-compound extenders are judged for soundness (Sass deliberately under-extends there); sheets combining negation with chained extends, and outputs too large for the DOM oracle, are inconclusive; known findings (missing target accepted, extension across @media, self-extension blow-up, order-dependence/incompleteness classes that mirror the reference algorithm's per-@extend application, sibling-combinator weave seen with 4-element DOMs) are matched narrowly on structural facts",
    technique="runtime monitoring: exhaustive small-model (DOM enumeration) oracle with credited-semantics fixed point over compiled outputs"),
  "C13": dict(engine="vw+vp+strace",
    text="(a) reference-model monitor: vp/model/imports.py (the documented search: importing file's directory then load paths in order; literal+partial for explicit extensions; import-only files for @import; .sass/.scss then .css then index files; extension appended to the whole basename) must select the file whose self-naming marker reaches the output, or both must fail; (b) offline checker of the Fs call trace recorded by the harness' in-memory Fs: every is_file/is_dir target is a candidate of that search and only the entry and the chosen file are read; (c) isolation: the worker's real working directory is populated with decoys that would win if the real disk were consulted; (d) plain-CSS imports emitted without touching the Fs; (e) a missing import is an error located at the import site; thorough adds strace on a batch (no file syscall during compilations)",
